@@ -17,7 +17,7 @@ class C12(Scenario):
     prop = "C12"
     level = "fault_enumeration"
     profiles = ["faulty-stream"]
-    budgets = {"quick": 2500, "thorough": 40000}
+    budgets = {"quick": 6000, "thorough": 100000}
     wall_caps = {"quick": 110, "thorough": 1500}
     block = 32
     rule = ("one run = one base case (single-path tree over Bin / SparselyBin / CentrallyBin / IrregularlyBin / "
